@@ -292,8 +292,10 @@ Fixpoint mapM {A B} (f : A -> option B) (l : list A) : option (list B) :=
               end
   end.
 (* _recordReadVec<T>(nvalues): exactly nvalues words on the data line *)
+(* an empty vector (nvalues = 0) reads nothing: the blank line written for it is skipped by the next reader *)
 Definition rd_vec {A} (p : word -> option A) (n : Z) : reader (list A) :=
-  fun s => let (l, s') := rline s in
+  fun s => if n =? 0 then Some ([], s) else
+           let (l, s') := rline s in
            if Z.of_nat (length l) =? n then
              match mapM p l with Some v => Some (v, s') | None => None end
            else None.
